@@ -592,6 +592,29 @@ func GenConc(seed uint64, prop, target string) (*Scenario, map[string]int64) {
 		}
 		sg.faults["copies_just_under_the_limit_in_every_task"]++
 	}
+	if r.P(50) {
+		// Every task the same document and patch, full of characters that HTML escaping rewrites, with
+		// the tasks disagreeing about EscapeHTML: what one call's option decides must stay in that call.
+		di := sg.addBuf(`{"a<b":{"x&y":"<tag>","k":["&amp;","\u2028"]},"plain":{"n":1},"t>":"1 < 2 && 3 > 2"}`)
+		pi := sg.addBuf(`[{"op":"test","path":"/a<b","value":{"x&y":"<tag>","k":["&amp;","\u2028"]}},{"op":"copy","from":"/a<b","path":"/plain/c&d"},{"op":"add","path":"/plain/<new>","value":"a&b"}]`)
+		for t := range sg.sc.Tasks {
+			own := nshared + t
+			sg.nextID++
+			calls := []Call{{ID: sg.nextID, Fn: FnDecodePatch, Name: "DecodePatch", A: pi, Slot: own}}
+			for i, n := 0, 2+r.Intn(3); i < n; i++ {
+				sg.nextID++
+				c := Call{ID: sg.nextID, Fn: FnApplyWithOptions, Name: "ApplyWithOptions", A: di, Slot: own, Opts: Opts{Neg: true, Escape: (t+i)%2 == 0}}
+				if target == "legacy" {
+					c.Fn, c.Name, c.Opts = FnApply, "Apply", Opts{}
+				} else if r.P(300) {
+					c.Fn, c.Name, c.Indent = FnApplyIndentWithOptions, "ApplyIndentWithOptions", " "
+				}
+				calls = append(calls, c)
+			}
+			sg.sc.Tasks[t] = append(calls, sg.sc.Tasks[t]...)
+		}
+		sg.faults["tasks_disagree_about_html_escaping"]++
+	}
 	if r.P(70) {
 		// The same small program in every task, differing only in *which member* it addresses - among
 		// them names that need ~0/~1 escapes in a pointer.  Whatever is remembered per key, per path
